@@ -1039,7 +1039,8 @@ fn write_value(db: &Database, table: &str, id: usize, v: &Val, param: bool, upda
 }
 
 /// Execute a batch.  `only`: restrict to these case indices (isolation / exclusion).
-fn run_unit(scratch: &std::path::Path, u: &Unit, only: &BTreeSet<usize>, name: &str) -> UnitRun {
+/// `separate`: every case gets its own table `t<case>` (isolation from the other rows of the batch).
+fn run_unit(scratch: &std::path::Path, u: &Unit, only: &BTreeSet<usize>, name: &str, separate: bool) -> UnitRun {
     let mut r = UnitRun { failures: vec![], proj: vec![], panicked: None, setup_err: None, written: 0, rejected: 0, toast_rows: 0, unparsed: 0, setup_skipped: 0 };
     let mut t = match TestDb::create(scratch, name) {
         Ok(t) => t,
@@ -1048,28 +1049,42 @@ fn run_unit(scratch: &std::path::Path, u: &Unit, only: &BTreeSet<usize>, name: &
             return r;
         }
     };
-    let ddl = format!("CREATE TABLE t (id INT{}, v {}, w INT)", if u.pk { " PRIMARY KEY" } else { "" }, u.ty.ddl);
-    match run(t.db(), &ddl, None) {
-        Out::Err(e) | Out::Panic(e) => {
-            r.setup_err = Some(format!("{ddl}: {e}"));
+    let mk_table = |db: &Database, table: &str| -> Option<String> {
+        let ddl = format!("CREATE TABLE {table} (id INT{}, v {}, w INT)", if u.pk { " PRIMARY KEY" } else { "" }, u.ty.ddl);
+        match run(db, &ddl, None) {
+            Out::Err(e) | Out::Panic(e) => Some(format!("{ddl}: {e}")),
+            _ => None,
+        }
+    };
+    if !separate {
+        if let Some(e) = mk_table(t.db(), "t") {
+            r.setup_err = Some(e);
             return r;
         }
-        _ => {}
     }
-    // live[i] = Some(expected) when case i wrote successfully and must be readable
-    let mut live: BTreeMap<usize, usize> = BTreeMap::new(); // case idx -> row id
+    // groups of cases sharing one table: (table name, case -> row id)
+    let mut groups: Vec<(String, BTreeMap<usize, usize>)> = if separate { vec![] } else { vec![("t".to_string(), BTreeMap::new())] };
     let mut next_id = 0usize;
     for (ci, case) in u.cases.iter().enumerate() {
         if !only.contains(&ci) {
             continue;
         }
         next_id += 1;
-        let id = next_id;
+        let id = if separate { 1 } else { next_id };
+        let table = if separate { format!("t{ci}") } else { "t".to_string() };
+        if separate {
+            if let Some(e) = mk_table(t.db(), &table) {
+                r.setup_err = Some(e);
+                return r;
+            }
+            groups.push((table.clone(), BTreeMap::new()));
+        }
+        let table = table.as_str();
         let to = &u.ty.vals[case.1];
         let is_parse_err = |e: &str| e.contains("failed to parse SQL");
         if u.update {
             let from = &u.ty.vals[case.0.unwrap()];
-            match write_value(t.db(), "t", id, from, u.param, false) {
+            match write_value(t.db(), table, id, from, u.param, false) {
                 Out::Aff(1) => {}
                 Out::Panic(_) => {
                     // the insert unit reports this; the database may be damaged: rerun without the case
@@ -1083,7 +1098,7 @@ fn run_unit(scratch: &std::path::Path, u: &Unit, only: &BTreeSet<usize>, name: &
                 }
             }
         }
-        let out = write_value(t.db(), "t", id, to, u.param, u.update);
+        let out = write_value(t.db(), table, id, to, u.param, u.update);
         let fail = |what: &str, observed: String| Failure { case: ci, when: "now", what: what.to_string(), expected: format!("statement succeeds and the value reads back as {}", show_exp(&to.exp)), observed };
         match out {
             Out::Aff(1) => {
@@ -1091,7 +1106,7 @@ fn run_unit(scratch: &std::path::Path, u: &Unit, only: &BTreeSet<usize>, name: &
                 if to.bytes > TOAST_THRESHOLD {
                     r.toast_rows += 1;
                 }
-                live.insert(ci, id);
+                groups.last_mut().unwrap().1.insert(ci, id);
             }
             Out::Aff(n) => r.failures.push(fail("error", format!("statement reported {n} affected rows"))),
             Out::Err(e) => {
@@ -1114,15 +1129,16 @@ fn run_unit(scratch: &std::path::Path, u: &Unit, only: &BTreeSet<usize>, name: &
     for when in ["now", "reopen"] {
         if when == "reopen" {
             if let Err(e) = t.reopen() {
-                for (&ci, _) in &live {
+                for (&ci, _) in groups.iter().flat_map(|g| g.1.iter()) {
                     let to = &u.ty.vals[u.cases[ci].1];
                     r.failures.push(Failure { case: ci, when, what: if e.starts_with("PANIC") { "panic".into() } else { "error".into() }, expected: format!("database reopens; value reads back as {}", show_exp(&to.exp)), observed: format!("reopen failed: {}", vcore::util::clip(&e, 300)) });
                 }
                 return r;
             }
         }
+        for (table, live) in &groups {
         // full scan once
-        let scan = run(t.db(), "SELECT * FROM t", None);
+        let scan = run(t.db(), &format!("SELECT * FROM {table}"), None);
         let scan_rows: Option<BTreeMap<i64, Vec<OV>>> = match &scan {
             Out::Rows(rows) => {
                 let mut m = BTreeMap::new();
@@ -1141,7 +1157,11 @@ fn run_unit(scratch: &std::path::Path, u: &Unit, only: &BTreeSet<usize>, name: &
             Out::Panic(p) => Some(("panic", format!("SELECT * FROM t => PANIC({})", vcore::util::clip(p, 300)))),
             _ => Some(("error", "SELECT * returned no row set".to_string())),
         };
-        for (&ci, &id) in &live {
+        let failed_before: BTreeSet<usize> = r.failures.iter().map(|f| f.case).collect();
+        for (&ci, &id) in live {
+            if failed_before.contains(&ci) {
+                continue; // stop at divergence: already reported for the earlier read
+            }
             let to = &u.ty.vals[u.cases[ci].1];
             let w = (id * 7 + 1) as i64;
             let check_row = |row: &Vec<OV>| -> Option<(String, String)> {
@@ -1158,7 +1178,7 @@ fn run_unit(scratch: &std::path::Path, u: &Unit, only: &BTreeSet<usize>, name: &
             };
             let expected = format!("(id={id}, v={}, w={w})", show_exp(&to.exp));
             // 1. lookup by id
-            let q = format!("SELECT * FROM t WHERE id = {id}");
+            let q = format!("SELECT * FROM {table} WHERE id = {id}");
             let lookup: Option<(String, String)> = match run(t.db(), &q, None) {
                 Out::Rows(rows) => {
                     if rows.is_empty() {
@@ -1198,7 +1218,7 @@ fn run_unit(scratch: &std::path::Path, u: &Unit, only: &BTreeSet<usize>, name: &
             }
             // 3. filtered single-column projection must agree with the star lookup
             if lookup.is_none() {
-                let q = format!("SELECT v FROM t WHERE id = {id}");
+                let q = format!("SELECT v FROM {table} WHERE id = {id}");
                 let bad = match run(t.db(), &q, None) {
                     Out::Rows(rows) => {
                         if rows.len() != 1 || rows[0].len() != 1 {
@@ -1219,7 +1239,7 @@ fn run_unit(scratch: &std::path::Path, u: &Unit, only: &BTreeSet<usize>, name: &
         // 4. unfiltered single-column projection == v column of SELECT * (position-wise)
         if let (Out::Rows(star), None) = (&scan, &scan_problem) {
             let want: Vec<&OV> = star.iter().filter_map(|r| r.get(1)).collect();
-            let bad: Option<(String, String)> = match run(t.db(), "SELECT v FROM t", None) {
+            let bad: Option<(String, String)> = match run(t.db(), &format!("SELECT v FROM {table}"), None) {
                 Out::Rows(rows) => {
                     if rows.len() != want.len() {
                         Some(("proj-row-count".into(), format!("{} rows, SELECT * has {}", rows.len(), want.len())))
@@ -1243,10 +1263,11 @@ fn run_unit(scratch: &std::path::Path, u: &Unit, only: &BTreeSet<usize>, name: &
                 _ => Some(("proj-error".into(), "no row set".into())),
             };
             if let Some((w, o)) = bad {
-                if !want.is_empty() {
+                if !want.is_empty() && !separate {
                     r.proj.push((when, w, "SELECT v FROM t returns, row by row, the v column of SELECT * FROM t".into(), o));
                 }
             }
+        }
         }
     }
     r
@@ -1321,7 +1342,7 @@ fn explore_unit(ctx: &Ctx, rep: &mut Reporter, u: &Unit, uname: &str, seen_sig: 
     let mut removed: Vec<Failure> = Vec::new();
     let mut reruns = 0u64;
     let res = loop {
-        let r = run_unit(&ctx.scratch, u, &only, uname);
+        let r = run_unit(&ctx.scratch, u, &only, uname, false);
         if let Some(e) = &r.setup_err {
             rep.violation("C11", "setup", &format!("C11/{}/-/{}/{}/now/setup-error", u.ty.sig, path_name(u.param), if u.update { "update" } else { "insert" }), || batch_json(u, &only), "table of this column type can be created", e);
             return;
@@ -1365,32 +1386,34 @@ fn explore_unit(ctx: &Ctx, rep: &mut Reporter, u: &Unit, uname: &str, seen_sig: 
     failures.extend(res.failures.iter().cloned());
     let failed_cases: BTreeSet<usize> = failures.iter().map(|f| f.case).collect();
     rep.count("cases_with_violation", failed_cases.len() as u64);
-    let mut verified: BTreeMap<usize, Option<BTreeSet<String>>> = BTreeMap::new();
+    // every failing case (except panics, which already got a batch of their own) is re-executed in a table
+    // of its own inside ONE fresh database
+    let iso_cases: BTreeSet<usize> = failures.iter().filter(|f| f.what != "panic").map(|f| f.case).take(400).collect();
+    let mut iso_sigs: BTreeSet<String> = BTreeSet::new();
+    if !iso_cases.is_empty() {
+        let mut todo = iso_cases.clone();
+        for _ in 0..8 {
+            let r = run_unit(&ctx.scratch, u, &todo, &format!("{uname}_iso"), true);
+            rep.count("isolation_databases", 1);
+            iso_sigs.extend(r.failures.iter().map(|x| sig_of(u, x)));
+            match r.panicked {
+                Some(ci) if r.setup_err.is_none() => {
+                    todo.remove(&ci);
+                }
+                _ => break,
+            }
+        }
+    }
+    let _ = &seen_sig;
     for f in &failures {
         let sig = sig_of(u, f);
         rep.outcome(&format!("{}:{}", f.when, f.what));
-        let n = seen_sig.entry(sig.clone()).or_insert(0);
-        *n += 1;
-        if *n <= 2 {
-            // re-execute alone in a fresh database
-            let sigs = verified.entry(f.case).or_insert_with(|| {
-                let one: BTreeSet<usize> = [f.case].into_iter().collect();
-                let r = run_unit(&ctx.scratch, u, &one, &format!("{uname}_iso"));
-                if r.setup_err.is_some() {
-                    return None;
-                }
-                Some(r.failures.iter().map(|x| sig_of(u, x)).collect())
-            });
-            rep.count("violations_reexecuted_in_isolation", 1);
-            let ok = sigs.as_ref().map(|s| s.contains(&sig)).unwrap_or(false);
-            if ok {
-                rep.violation("C11", "roundtrip", &sig, || case_json(u, f.case), &f.expected, &f.observed);
-            } else {
-                rep.count("violations_only_in_batch", 1);
-                rep.violation("C11", "roundtrip", &format!("{sig}/batch-only"), || batch_json(u, &only), &f.expected, &f.observed);
-            }
-        } else {
+        if f.what == "panic" || iso_sigs.contains(&sig) || !iso_cases.contains(&f.case) {
+            rep.count("violations_confirmed_in_isolation", (f.what != "panic" && iso_cases.contains(&f.case)) as u64);
             rep.violation("C11", "roundtrip", &sig, || case_json(u, f.case), &f.expected, &f.observed);
+        } else {
+            rep.count("violations_only_in_batch", 1);
+            rep.violation("C11", "roundtrip", &format!("{sig}/batch-only"), || batch_json(u, &only), &f.expected, &f.observed);
         }
     }
     for (when, what, e, o) in &res.proj {
@@ -1518,7 +1541,7 @@ impl Check for C11 {
         let u = Unit { ty, pk, param, update, cases };
         let all: BTreeSet<usize> = (0..u.cases.len()).collect();
         let batch = case["mode"].as_str() == Some("batch");
-        let r = run_unit(&ctx.scratch, &u, &all, "replay");
+        let r = run_unit(&ctx.scratch, &u, &all, "replay", false);
         rep.bulk(u.cases.len() as u64 * 2, u.cases.len() as u64 * 2);
         if let Some(e) = &r.setup_err {
             rep.violation("C11", "setup", &format!("C11/{}/-/{}/{}/now/setup-error", u.ty.sig, path_name(u.param), if u.update { "update" } else { "insert" }), || case.clone(), "table can be created", e);
